@@ -203,6 +203,80 @@ fn merged_import_case(ctx: &mut Ctx, case: u64, rng: &mut Rng) {
     ctx.shape_str(&format!("merged|{a:?}|{b:?}|{offered:?}|{first_c0}"));
 }
 
+/// Third workload: the world requires a function / instance export, and the document only
+/// DEFINES a type of that name (`type fx = func(..);`, `interface inl {..}`), or really exports the
+/// item, or both. A type definition is exported as a type: it never satisfies the world.
+fn type_shadow_case(ctx: &mut Ctx, case: u64, rng: &mut Rng) {
+    let want_func = rng.chance(1, 2);
+    let want_inst = !want_func || rng.chance(1, 2);
+    let mut world = String::from("package test:tgt;\n\nworld w {\n");
+    if want_func {
+        world.push_str("    export fx: func(a: u8) -> string;\n");
+    }
+    if want_inst {
+        world.push_str("    export inl: interface {\n        f: func();\n    }\n");
+    }
+    world.push_str("}\n");
+    // the component really provides both
+    let comp_world = "package test:c0;\n\nworld w {\n    export fx: func(a: u8) -> string;\n    export inl: interface {\n        f: func();\n    }\n}\n";
+    let (Some(c0), Some(world_pkg)) = (
+        catch(|| witgen::build_component(&[], comp_world, "w")).ok().and_then(|r| r.ok()),
+        catch(|| witgen::encode_wit_package(&[], &world)).ok().and_then(|r| r.ok()),
+    ) else {
+        ctx.count("gen-fail");
+        return;
+    };
+    // per required export: 0 = really exported, 1 = only a type of that name is defined
+    let fx_mode = rng.below(2);
+    let inl_mode = rng.below(2);
+    let mut body = String::from("let i = new test:c0 { ... };\n");
+    let mut conforms = true;
+    if want_func {
+        if fx_mode == 0 {
+            body.push_str("export i[\"fx\"];\n");
+        } else {
+            body.push_str("type fx = func(a: u8) -> string;\n");
+            conforms = false;
+        }
+    }
+    if want_inst {
+        if inl_mode == 0 {
+            body.push_str("export i[\"inl\"];\n");
+        } else {
+            body.push_str("interface inl {\n    f: func();\n}\n");
+            conforms = false;
+        }
+    }
+    let with_target = format!("package test:comp targets test:tgt/w;\n{body}");
+    let without_target = format!("package test:comp;\n{body}");
+    let input = json!({"target": world, "document": with_target});
+    let packages = vec![("test:c0".to_string(), c0), ("test:tgt".to_string(), world_pkg.clone())];
+    ctx.eval();
+    let Ok((v_resolve, _)) = resolve_verdict(&with_target, &packages) else {
+        ctx.count("pipeline-panic-skipped");
+        return;
+    };
+    ctx.count(if conforms { "type-shadow:really-exported" } else { "type-shadow:only-a-type-of-that-name" });
+    if (v_resolve == Verdict::Accept) != conforms {
+        ctx.violation(case, &format!("C11:type-shadow:resolve-verdict:{}-vs-expected-{}", class(&v_resolve), if conforms { "accept" } else { "reject" }), format!("Document::resolve -> {v_resolve:?}"), input.clone());
+    }
+    if let Ok((Verdict::Accept, Some(output))) = resolve_verdict(&without_target, &packages[..1]) {
+        if let Ok(Ok(v)) = catch(|| standalone_verdict(&world_pkg, &output)) {
+            if (v == Verdict::Accept) != conforms {
+                ctx.violation(case, &format!("C11:type-shadow:standalone-verdict:{}-vs-expected-{}", class(&v), if conforms { "accept" } else { "reject" }), format!("validate_target -> {v:?}"), input.clone());
+            }
+        }
+        if let Ok(r) = reference_verdict(&world_pkg, &output) {
+            if r != conforms {
+                ctx.violation(case, &format!("C11:type-shadow:reference-verdict:{r}-vs-expected-{conforms}"), format!("wasmparser `output <: world` = {r}"), input.clone());
+            }
+        }
+    } else {
+        ctx.count("composition-without-target-does-not-encode");
+    }
+    ctx.shape_str(&format!("shadow|{want_func}|{want_inst}|{fx_mode}|{inl_mode}"));
+}
+
 pub fn run(ctx: &mut Ctx) {
     let total = ctx.n(15_000, 6_000_000);
     // directed witness of the recorded finding (resource of an interface that the world both imports,
@@ -220,6 +294,11 @@ pub fn run(ctx: &mut Ctx) {
         if !fixed && case % 5 == 4 {
             let mut rng = ctx.rng(case);
             merged_import_case(ctx, case, &mut rng);
+            continue;
+        }
+        if !fixed && case % 10 == 3 {
+            let mut rng = ctx.rng(case);
+            type_shadow_case(ctx, case, &mut rng);
             continue;
         }
         let fixed_b = case == witness + 1;
